@@ -175,31 +175,40 @@ func schemeName(t *Table, sch []int) string {
 	return t.Concrete(sch)
 }
 
-// check compares the real sanitiser with the state the automaton reaches for s.
-func (c *checker) check(s string, st int, k *counters) {
+// judge compares the real sanitiser with the state the automaton reaches for s.
+// It returns a candidate violation (confirmed later by trace validation of the rendered value), or drift.
+func (c *checker) judge(s string, st int) (realPass bool, cand *candidate, drift bool) {
 	got := string(templ.URL(s))
 	ann := &c.a.states[st]
+	realPass = got == s
+	if s == failURL {
+		return realPass, nil, false
+	}
+	if !realPass && got != failURL {
+		return realPass, &candidate{S: s, Sig: "FailIsFixed." + ann.Why, What: fmt.Sprintf("templ.URL(%q) = %q: neither the input nor the fixed failure URL", s, got)}, false
+	}
+	if realPass && !ann.Safe {
+		return realPass, &candidate{S: s, Sig: "PassImpliesSafe." + ann.Why + "." + schemeName(c.t, ann.Scheme), Scheme: schemeName(c.t, ann.Scheme),
+			What: fmt.Sprintf("templ.URL(%q) returns its input, a browser resolves it with scheme %q", s, schemeName(c.t, ann.Scheme))}, false
+	}
+	return realPass, nil, realPass != (ann.Verdict == "pass")
+}
+
+func (c *checker) check(s string, st int, k *counters) {
+	realPass, cand, drift := c.judge(s, st)
 	k.n++
-	realPass := got == s
 	if realPass {
 		k.pass++
 	} else {
 		k.fail++
 	}
-	if s == failURL {
-		return
-	}
-	if !realPass && got != failURL {
-		c.add(candidate{S: s, Sig: "FailIsFixed." + ann.Why, What: fmt.Sprintf("templ.URL(%q) = %q: neither the input nor the fixed failure URL", s, got)})
-		return
-	}
-	if realPass && !ann.Safe {
+	if cand != nil {
 		k.cand++
-		c.add(candidate{S: s, Sig: "PassImpliesSafe." + ann.Why + "." + schemeName(c.t, ann.Scheme), Scheme: schemeName(c.t, ann.Scheme),
-			What: fmt.Sprintf("templ.URL(%q) returns its input, a browser resolves it with scheme %q", s, schemeName(c.t, ann.Scheme))})
+		c.add(*cand)
 		return
 	}
-	if realPass != (ann.Verdict == "pass") {
+	if drift {
+		ann := &c.a.states[st]
 		k.drift++
 		c.mu.Lock()
 		if c.dsmp < 3 {
@@ -528,8 +537,8 @@ func main() {
 	ctx := context.Background()
 	for xi, s := range rs {
 		for si, sk := range sinks {
-			if si >= 2 && xi%4 != 0 && xi < candStart {
-				continue // the two secondary sinks see every fourth string
+			if xi < candStart && ((si == 1 && xi%2 != 0) || (si >= 2 && xi%8 != 0)) {
+				continue // the secondary sinks see every second / eighth string (and every candidate)
 			}
 			var buf bytes.Buffer
 			if err := sk.render(s).Render(ctx, &buf); err != nil {
@@ -559,9 +568,14 @@ func main() {
 	for i := range shardW {
 		shardW[i].Flush()
 	}
-	// candidates (unsafe pass / not fixed) with the trace ids under which TLC must confirm them
-	for i, x := range c.cand {
-		vhlib.Emit(map[string]any{"kind": "candidate", "id": 1*100_000_000 + candStart + i, "sig": x.Sig, "what": x.What, "in": strconv.Quote(x.S)})
+	// candidates (unsafe pass / not fixed) among the rendered strings, keyed by the string index that the
+	// trace ids carry (id % 100000000): TLC must confirm exactly these
+	ncand := 0
+	for xi, str := range rs {
+		if _, cand, _ := c.judge(str, a.walk(t, str)); cand != nil {
+			ncand++
+			vhlib.Emit(map[string]any{"kind": "candidate", "xi": xi, "sig": cand.Sig, "what": cand.What, "in": strconv.Quote(str)})
+		}
 	}
 	vhlib.Sample(map[string]string{"in": strconv.Quote("java\tscript:alert(1)"), "out": string(templ.URL("java\tscript:alert(1)"))})
 	vhlib.Sample(map[string]string{"in": strconv.Quote("http\u017f://x"), "out": string(templ.URL("http\u017f://x")), "note": "EqualFold accepts LONG S; a browser sees no scheme: relative reference"})
@@ -570,7 +584,7 @@ func main() {
 		return map[string]int64{"strings": k.n, "pass": k.pass, "fail": k.fail, "drift": k.drift, "unsafe_pass": k.cand}
 	}
 	vhlib.Summary(map[string]any{"states": len(a.states), "fold": tot(kFold), "exhaustive": tot(kEx), "exhaustive_len": L, "alphabet": len(alpha),
-		"cover": tot(kCov), "vectors": tot(kVec), "candidates": len(c.cand), "renders": renders, "go_fails": goFails, "trace_lines": lines,
+		"cover": tot(kCov), "vectors": tot(kVec), "candidates": ncand, "candidates_direct": kFold.cand + kEx.cand + kCov.cand + kVec.cand, "renders": renders, "go_fails": goFails, "trace_lines": lines,
 		"shard_lines": shardN, "drift": kFold.drift + kEx.drift + kCov.drift + kVec.drift,
 		"evaluations": kFold.n + kEx.n + kCov.n + kVec.n})
 }
